@@ -146,6 +146,34 @@ pub fn gen(a: &Args) -> String {
         out.stat(&format!("kind_{}", kind), 1);
         run_case(&mut out, &Case { id, kind: kind.to_string(), ops });
     }
+    if a.thorough {
+        // supporting exploration (not the proof): every history of length <= 4 over a boundary
+        // alphabet around two bases, for a secure unicast session and for one group sender
+        let mut id = n_cases;
+        for base in [1000u64, U32M - 20] {
+            let offs: [i64; 12] = [-18, -17, -16, -15, -1, 0, 1, 15, 16, 17, 18, 40];
+            let alpha: Vec<u64> = offs.iter().map(|o| ((base as i64 + o) as u64) % U32M).collect();
+            for len in 1..=4usize {
+                let total = alpha.len().pow(len as u32);
+                for mut k in 0..total {
+                    let mut h = Vec::with_capacity(len);
+                    for _ in 0..len {
+                        h.push(alpha[k % alpha.len()]);
+                        k /= alpha.len();
+                    }
+                    for kind in ["u", "g"] {
+                        let ops: Vec<String> = h
+                            .iter()
+                            .map(|c| if kind == "g" { format!("1 7 {}", c) } else { c.to_string() })
+                            .collect();
+                        out.stat("exhaustive_small_scope", 1);
+                        run_case(&mut out, &Case { id, kind: kind.to_string(), ops });
+                        id += 1;
+                    }
+                }
+            }
+        }
+    }
     out.finish()
 }
 
